@@ -164,7 +164,19 @@ def _r2_r3_r4(ctx):
             continue
         cb = cyc[0]
         # ---- R2
-        pl = fn.local_of('paused')
+        # the pause flag: a boolean local assigned both constants, whose false edge guards the cycle
+        # (the source name `paused` is only a tie-breaker)
+        flagc = []
+        for l_, dl_ in fn.defs.items():
+            if fn.local_ty(l_) != 'bool':
+                continue
+            vals = {('true' in rv_[1][2]) for (b_, k_, rv_) in dl_ if k_ == 'A' and rv_[0] == 'use' and rv_[1][0] == 'k'}
+            if vals == {True, False}:
+                p_, n_, _ = test_edges(fn, {l_: ('bool', True)})
+                if n_ and guarded(fn, cb, n_):
+                    flagc.append(l_)
+        named_ = fn.local_of('paused')
+        pl = sorted(flagc, key=lambda l: (l not in named_, l)) or named_
         if not pl:
             r2.bad('paused-flag|%s' % short, 'no `paused` flag found', loc=fn.loc(0))
         else:
